@@ -9,6 +9,7 @@ import ZstdVerif.Lemmas.HufRT
 import ZstdVerif.Lemmas.ExecRT
 import ZstdVerif.Lemmas.LitRT
 import ZstdVerif.Lemmas.SeqRT
+import ZstdVerif.Lemmas.FrameRT
 namespace ZstdVerif.Props.C01
 open ZstdVerif
 
@@ -329,6 +330,35 @@ theorem seq_section_roundtrip_predefined (seqs : List SeqIn) (hne : seqs ≠ [])
       sd.seqs.toList = (resolveAll (repOf rep0) (seqs.map triIn)).1 ∧
       sd.rep = repArr (resolveAll (repOf rep0) (seqs.map triIn)).2 :=
   SeqRT.seq_section_roundtrip_predefined seqs hne hrng rep0
+
+/-! ### whole frames: the total fallback of the compressor round-trips, for EVERY input -/
+
+open HeaderW Serialize FrameRT in
+/-- **frame_roundtrip_raw** (`decode(compress(x)) = x` for the raw-block compressor): for every input `x` and every accepted frame-parameter tuple
+(window log, content-size flag, checksum flag), the frame made of ZSTD_writeFrameHeader, raw blocks cut the way ZSTD_compress_frameChunk cuts them
+(ZSTD_noCompressBlock) and ZSTD_writeEpilogue (XXH64 checksum) is decoded by the FULL decoder model (`Frame.decompressAll` = ZSTD_decompress:
+header parse, block loop, content-size check, checksum verification) to exactly `x`, in any capacity ≥ |x|.  Every block of every frame may
+always be emitted raw, so this is the compressor's total fallback; the serializer is tied byte for byte to those C functions and its frames
+are decoded by the real ZSTD_decompress on every run (tools/ent_frame.py). -/
+theorem frame_roundtrip_raw (a : HArgs) (ha : a.wf) (hnd : a.noDictID = true ∨ a.dictID = 0) (hm : a.magicless = false)
+    (x : ByteArray) (hp : a.contentSizeFlag = true → a.pledged = x.size)
+    (dict : Frame.Dict) (cap : Nat) (hcap : x.size ≤ cap) (o : Frame.Opts) (hml : o.magicless = false) (hmb : o.maxBlockSize = 0) :
+    ∃ traces, Frame.decompressAll (rawFrame a x) dict cap o = .ok (x, traces) :=
+  FrameRT.frame_roundtrip_raw a ha hnd hm x hp dict cap hcap o hml hmb
+
+open HeaderW Serialize FrameRT in
+/-- **frame_roundtrip_blocks**: the same for ANY tiling of `x` into raw and RLE blocks within the block-size limit -/
+theorem frame_roundtrip_blocks (a : HArgs) (bs : List BlockChoice) (x : ByteArray) (hok : FrameOK a bs x)
+    (dict : Frame.Dict) (cap : Nat) (hcap : x.size ≤ cap) (o : Frame.Opts) (hml : o.magicless = false) (hmb : o.maxBlockSize = 0) :
+    ∃ traces, Frame.decompressAll (serializeFrame a bs x) dict cap o = .ok (x, traces) :=
+  FrameRT.frame_roundtrip_blocks a bs x hok dict cap hcap o hml hmb
+
+open HeaderW Serialize FrameRT in
+/-- **multi_frame_roundtrip**: concatenations of such frames and skippable frames decode to the concatenation of the contents -/
+theorem multi_frame_roundtrip (segs : List Segment) (hok : ∀ s ∈ segs, SegOK s) (dict : Frame.Dict) (cap : Nat)
+    (hcap : (contentOf segs).size ≤ cap) (o : Frame.Opts) (hml : o.magicless = false) (hmb : o.maxBlockSize = 0) :
+    ∃ traces, Frame.decompressAll (serializeSegs segs) dict cap o = .ok (contentOf segs, traces) :=
+  FrameRT.multi_frame_roundtrip segs hok dict cap hcap o hml hmb
 
 /-! ### sequence execution: any valid parse regenerates its source -/
 
